@@ -68,6 +68,11 @@ pub fn idle_lines() -> Vec<&'static str> {
         "PRINT X<1;X=X;X<>X;Y>X;A(X)",
         "INPUT X",
         "FOR X=X TO Y STEP X",
+        // commands followed by text (the command processor looks at the first word)
+        "LIST 30-10",
+        "LIST 18446744073709551615,0",
+        "RUN 30",
+        "CONT 1",
     ]
 }
 
@@ -274,8 +279,10 @@ fn run_shape(text: &str) -> Vec<(String, Vec<Ev>)> {
 // ---------------------------------------------------------------------------------------
 // (3) recursion-depth probes
 
-pub const ROUTES: [&str; 11] = [
+pub const ROUTES: [&str; 15] = [
     "paren", "neg_paren", "not_paren", "abs", "array", "fn", "if_then", "eq_chain", "fn_recursive_paren", "fn_recursive_args", "if_then_paren",
+    // runs of prefix operators and of other tokens without any bracket between them
+    "neg_chain", "not_chain", "plus_minus_chain", "pow_chain",
 ];
 
 pub fn nested_line(route: &str, depth: usize) -> (Vec<String>, String) {
@@ -301,6 +308,10 @@ pub fn nested_line(route: &str, depth: usize) -> (Vec<String>, String) {
             "X=FNS(1)".to_string(),
         ),
         "if_then_paren" => (vec![], format!("{}X={}1{}", "IF 1 THEN ".repeat(depth), "(".repeat(depth), ")".repeat(depth))),
+        "neg_chain" => (vec![], format!("X={}1", "-".repeat(depth))),
+        "not_chain" => (vec![], format!("X={}1", "NOT ".repeat(depth))),
+        "plus_minus_chain" => (vec![], format!("PRINT {}1", "+-".repeat(depth))),
+        "pow_chain" => (vec![], format!("X=1{}", "^1".repeat(depth))),
         _ => (vec![], format!("X=1{}", "=1".repeat(depth))),
     }
 }
